@@ -245,9 +245,9 @@ def canonItems (op : Op) : List Expr → List Expr
   | e :: es => items op (wrapE (decide (e.lvl < op.lvl)) (canon e)) ++ canonItems op es
 end
 
-/-! ### Prepare before hooks/C10-fix7: the neo4j ExpressionListRewriter (query/neo4j/rewrite.go) on the WHERE expression
+/-! ### Prepare as it is: the neo4j ExpressionListRewriter (query/neo4j/rewrite.go) on the WHERE expression
 
-`prepOld sn neg inList e` mirrors the post-order walk: `neg` = a Negation is on the descent stack, `inList` = the
+`prep sn neg inList e` mirrors the post-order walk: `neg` = a Negation is on the descent stack, `inList` = the
 immediate parent is an ExpressionList (Where, Conjunction, Disjunction, ExclusiveDisjunction). Result `none` = Prepare
 fails ("expected an expression list AST node"); otherwise the kind lists hoisted onto the relationship pattern (one
 entry per matcher, in walk order) and what is left of the node (`none` = removed from its parent list).
@@ -289,28 +289,28 @@ def consOpt : Option Expr → List Expr → List Expr
   | none, xs => xs
 
 mutual
-def prepOld (sn neg inList : Bool) : Expr → Option (List (List String) × Option Expr)
+def prep (sn neg inList : Bool) : Expr → Option (List (List String) × Option Expr)
   | .cmp l op r => some ([], some (.cmp l op r))
   | .isNull l b => some ([], some (.isNull l b))
   | .kinds ref ks a =>
     if ref = edgeSym && !neg then (if inList then some ([ks], none) else none)
     else some ([], some (.kinds ref ks a))
   | .neg c =>
-    match prepOld sn true false c with
+    match prep sn true false c with
     | some p => some (p.1, some (negExit sn inList (p.2.getD c)))
     | none => none
   | .paren c =>
-    match prepOld sn neg false c with
+    match prep sn neg false c with
     | some p => some (p.1, parenExit inList (p.2.getD c))
     | none => none
   | .join op es =>
-    match prepListOld sn neg es with
+    match prepList sn neg es with
     | some p => some (p.1, joinExit inList op p.2)
     | none => none
-def prepListOld (sn neg : Bool) : List Expr → Option (List (List String) × List Expr)
+def prepList (sn neg : Bool) : List Expr → Option (List (List String) × List Expr)
   | [] => some ([], [])
   | e :: es =>
-    match prepOld sn neg true e, prepListOld sn neg es with
+    match prep sn neg true e, prepList sn neg es with
     | some p, some q => some (p.1 ++ q.1, consOpt p.2 q.2)
     | _, _ => none
 end
@@ -320,8 +320,8 @@ def flattenKinds : List (List String) → List String
   | ks :: r => ks ++ flattenKinds r
 
 /-- what QueryBuilder.Prepare does to the WHERE expression: kinds appended to the relationship pattern, new WHERE -/
-def prepareOld (e : Expr) : Option (List String × Option Expr) :=
-  match prepOld true false true e with
+def prepare (e : Expr) : Option (List String × Option Expr) :=
+  match prep true false true e with
   | some p => some (flattenKinds p.1, p.2)
   | none => none
 
@@ -337,41 +337,41 @@ def evalOpt (v : Val) : Option Expr → V3
 /-- a row is returned iff the pattern matches and the WHERE is true -/
 def meaning (v : Val) (ks : List String) (w : Option Expr) : V3 := and3 (patK v ks) (evalOpt v w)
 
-/-! ### Prepare as it is with hooks/C10-fix7 (the live definition): a relationship kind matcher moves onto the pattern
+/-! ### PROPOSAL (hooks/C10-fix7, not applied in /repo): a relationship kind matcher moves onto the pattern
 only if it is any-of, has no Negation above it, is reached from the WHERE through conjunctions and parentheticals only,
 sits directly in an expression list, and the pattern carries no kinds yet (`busy`); otherwise it stays where it is.
 There is no refusal any more. -/
 mutual
-def prep (sn busy neg conj inList : Bool) : Expr → List (List String) × Option Expr
+def prepFix7 (sn busy neg conj inList : Bool) : Expr → List (List String) × Option Expr
   | .cmp l op r => ([], some (.cmp l op r))
   | .isNull l b => ([], some (.isNull l b))
   | .kinds ref ks a =>
     if ref = edgeSym && !neg && conj && inList && !busy && !(a && decide (2 ≤ ks.length)) then ([ks], none)
     else ([], some (.kinds ref ks a))
   | .neg c =>
-    let p := prep sn busy true false false c
+    let p := prepFix7 sn busy true false false c
     (p.1, some (negExit sn inList (p.2.getD c)))
   | .paren c =>
-    let p := prep sn busy neg conj false c
+    let p := prepFix7 sn busy neg conj false c
     (p.1, parenExit inList (p.2.getD c))
   | .join op es =>
-    let p := prepList sn busy neg (conj && decide (op = .and)) es
+    let p := prepListFix7 sn busy neg (conj && decide (op = .and)) es
     (p.1, joinExit inList op p.2)
-def prepList (sn busy neg conj : Bool) : List Expr → List (List String) × List Expr
+def prepListFix7 (sn busy neg conj : Bool) : List Expr → List (List String) × List Expr
   | [] => ([], [])
   | e :: es =>
-    let p := prep sn busy neg conj true e
-    let q := prepList sn (busy || !p.1.isEmpty) neg conj es
+    let p := prepFix7 sn busy neg conj true e
+    let q := prepListFix7 sn (busy || !p.1.isEmpty) neg conj es
     (p.1 ++ q.1, consOpt p.2 q.2)
 end
 
 /-- what QueryBuilder.Prepare does to the WHERE expression: kinds put on the relationship pattern, new WHERE -/
-def prepare (e : Expr) : List String × Option Expr :=
-  let p := prep true false false true true e
+def prepareFix7 (e : Expr) : List String × Option Expr :=
+  let p := prepFix7 true false false true true e
   (flattenKinds p.1, p.2)
 
 mutual
-/-- one flag per matcher the OLD rewriter will hoist: does it sit in a purely conjunctive position (and is it any-of)? -/
+/-- one flag per matcher the rewriter will hoist: does it sit in a purely conjunctive position (and is it any-of)? -/
 def sites (neg conj : Bool) : Expr → List Bool
   | .kinds ref ks a =>
     -- the pattern `[r:A|B]` is any-of: an all-of matcher over several kinds cannot be hoisted faithfully either
